@@ -763,13 +763,24 @@ func contextAfterText(c context, s []byte) (context, int) {
 		ret.scriptType = strings.ToLower(string(s[:i]))
 	}
 	// Save the link element's rel attribute value if we are parsing it for the first time.
-	if c.state == stateAttr && c.element.name == "link" && c.attr.name == "rel" && c.linkRel == "" {
+	// Conditional branches may have named the attribute differently: it is the rel
+	// attribute if one of the names is "rel", but only maybe if another name is not.
+	isRel, maybeNotRel := c.attr.name == "rel", false
+	for _, name := range c.attr.names {
+		if name == "rel" {
+			isRel = true
+		} else {
+			maybeNotRel = true
+		}
+	}
+	if c.state == stateAttr && c.element.name == "link" && isRel && c.linkRel == "" {
 		// c.attr.value holds the static text of the attribute value seen in earlier text
 		// nodes (the value may be interrupted by template nodes), s[:i] is the rest.
 		ret.linkRel = " " + strings.Join(strings.Fields(strings.TrimSpace(strings.ToLower(c.attr.value+string(s[:i])))), " ") + " "
-		if c.attr.ambiguousValue {
-			// An action or differing conditional branches inside the value: the link may be
-			// anything, e.g. a style sheet. Add a value that is not a URL rel value, so that
+		if c.attr.ambiguousValue || maybeNotRel {
+			// An action or differing conditional branches inside the value, or an attribute
+			// that is the rel attribute in some branches only (a later rel attribute then
+			// counts in the others): the link may be anything, e.g. a style sheet. Add a value that is not a URL rel value, so that
 			// the href is treated as a TrustedResourceURL context.
 			ret.linkRel += "\x00 "
 		}
